@@ -613,6 +613,7 @@ def correspond(ctx):
     ctx.extra["window_lines_inconsistent"] = window_hits
     flow_phase_test(ctx, lines, src)
     pool_population_interrupt_test(ctx)
+    weights_write_interrupt_test(ctx)
     exit_code_test(ctx)
     double_signal_test(ctx)
     populate_interrupt_test(ctx)
@@ -861,6 +862,77 @@ def pool_population_interrupt_test(ctx):
             finally:
                 shutil.rmtree(d, ignore_errors=True)
     finally:
+        logging.disable(logging.NOTSET)
+
+
+def weights_write_interrupt_test(ctx):
+    """a signal while the FLOW WEIGHTS of the second training are being written (half of the file on disk), in the default layout with
+    one directory per training (`save_training_data=True`: no `.old` next to the file): the handler's checkpoint, resumed, must carry
+    the weights of a COMPLETED training — the previous ones (or the new ones), never an untrained flow (seeded change C11-jA:
+    `save_weights` recorded `weights_file` before writing, so the checkpoint named the torn file and resume silently went on with
+    an untrained flow)."""
+    import io
+    import logging
+    import torch
+    from nessai.flowsampler import FlowSampler
+    logging.disable(logging.CRITICAL)
+    d = tempfile.mkdtemp(prefix="c13w_")
+    kw = dict(nlive=60, plot=False, proposal_plots=False, seed=7, save_training_data=True, maximum_uninformed=60, training_frequency=60,
+              cooldown=30, checkpoint_interval=10 ** 9, poolsize=120, signal_handling=False, log_on_iteration=False,
+              flow_config=dict(n_blocks=2, n_neurons=4), training_config=dict(max_epochs=5, patience=3))
+    case = {"kind": "weights-write-interrupt", "interrupt": "half of the second training's model.pt written"}
+    real_save = torch.save
+    st = {"n": 0, "fs": None, "complete": []}
+
+    def torn_save(obj, f, *a, **k):
+        if not (isinstance(f, str) and f.endswith(".pt")):
+            return real_save(obj, f, *a, **k)
+        st["n"] += 1
+        if st["n"] < 2:
+            st["complete"].append({kk: v.clone() for kk, v in obj.items()})
+            return real_save(obj, f, *a, **k)
+        buf = io.BytesIO()
+        real_save(obj, buf, *a, **k)
+        data = buf.getvalue()
+        with open(f, "wb") as fh:
+            fh.write(data[: len(data) // 2])
+        st["new"] = {kk: v.clone() for kk, v in obj.items()}
+        ns = st["fs"].ns
+        ns.close_pool(code=signal.SIGTERM)          # what FlowSampler.safe_exit does: close pool, checkpoint, exit
+        ns.checkpoint()
+        raise Interrupted()
+
+    try:
+        torch.save = torn_save
+        try:
+            fs = FlowSampler(_gauss_model(), output=d, resume=False, max_iteration=400, **kw)
+            st["fs"] = fs
+            try:
+                fs.run(plot=False, save=False)
+            except Interrupted:
+                pass
+        finally:
+            torch.save = real_save
+        if st["n"] < 2:
+            ctx.case(("weights-write-interrupt",), False, case, kind="weights-write-interrupt:not-reached")
+            return
+        try:
+            f3 = FlowSampler(_gauss_model(), output=d, resume=True, **kw)
+            loaded = f3.ns._flow_proposal.flow.model.state_dict()
+            same = lambda ref: set(loaded) == set(ref) and all(torch.equal(loaded[k], ref[k]) for k in ref)   # noqa
+            ok = any(same(r) for r in st["complete"]) or same(st["new"])
+            if not ok:
+                ctx.oracle_fail("FlowModel.save_weights:interrupt-during-write:resumed-weights",
+                                "signal with half of the second training's weights file written, checkpoint, resume: the resumed flow carries "
+                                "neither the weights of the completed first training nor those of the second "
+                                f"(recorded weights file: {getattr(f3.ns._flow_proposal, 'weights_file', None)})", case)
+            ctx.case(("weights-write-interrupt", int(f3.ns.iteration)), True, case, kind="weights-write-interrupt:" + ("ok" if ok else "torn"))
+        except Exception as e:  # noqa
+            ctx.oracle_fail("FlowModel.save_weights:interrupt-during-write:resume-raised",
+                            f"the checkpoint written by the handler cannot be resumed: {type(e).__name__}: {e}", case)
+    finally:
+        torch.save = real_save
+        shutil.rmtree(d, ignore_errors=True)
         logging.disable(logging.NOTSET)
 
 
